@@ -33,7 +33,7 @@ COMPONENTS = {
              'scripted HTTP responder', 'SimSubprocess (Popen/communicate)',
              'SimDNS (DNSResolver.query)'],
 }
-BUDGET = {'quick': 8000, 'thorough': 600000}
+BUDGET = {'quick': 30000, 'thorough': 600000}
 PROBES = ['kind:smtp', 'kind:lmtp', 'kind:mx', 'kind:pipe', 'kind:pipe1',
           'kind:maildrop', 'kind:dovecot', 'kind:http', 'connection-reused',
           'helo-fallback', 'rcpt-rejected', 'all-rcpts-rejected',
